@@ -369,6 +369,10 @@ fn gen_graph(r: &mut Rng) -> (Graph, usize) {
                     return i;
                 }
             }
+            if nodes.len() >= MAX_SLOTS - 2 {
+                // no slot left for another leaf (one is kept for the service fix-up below)
+                return nodes.iter().position(|n| matches!(n, Node::Leaf(_))).filter(|i| *i >= ncustom).unwrap_or_else(|| r.below(ncustom));
+            }
             nodes.push(Node::Leaf(k));
             return nodes.len() - 1;
         }
@@ -377,6 +381,7 @@ fn gen_graph(r: &mut Rng) -> (Graph, usize) {
             0 => Node::Opt(a),
             1 => Node::Boxx(a),
             2 => Node::VecT(a),
+            3 | 4 if nodes.len() >= MAX_SLOTS - 3 => Node::Opt(a),
             3 => {
                 nodes.push(Node::Leaf(1 + r.below(8) as u8));
                 Node::SetT(nodes.len() - 1)
@@ -393,7 +398,7 @@ fn gen_graph(r: &mut Rng) -> (Graph, usize) {
             7 => Node::Sender(a),
             _ => Node::Receiver(a),
         };
-        if nodes.len() >= MAX_SLOTS {
+        if nodes.len() >= MAX_SLOTS - 2 {
             return a;
         }
         nodes.push(n);
@@ -509,6 +514,7 @@ fn gen_graph(r: &mut Rng) -> (Graph, usize) {
         }
     }
     let n = nodes.len();
+    assert!(n <= MAX_SLOTS, "harness: graph generator exceeded the slot table");
     let g = Graph { nodes, ref_perm: (0..n).map(|_| r.next_u64()).collect() };
     (g, 0)
 }
